@@ -263,8 +263,15 @@ func (run *checkRun) generate(en *Engine, p *PropSpec) []*Obligation {
 						cases = append(cases, i)
 					}
 				}
+				binds := []bool{false}
+				if len(fc.SliceBind) > 0 {
+					binds = append(binds, true)
+				}
 				for _, ci := range cases {
+				  for _, sb := range binds {
+					en.sliceBindActive = sb
 					r := en.VerifyFunction(fn, fc, pc, ap, ci)
+					en.sliceBindActive = false
 					for _, e := range r.Errors {
 						run.undecided = append(run.undecided, fmt.Sprintf("%s{%s}[%s]: %s", r.Func, r.AliasCase, en.cfgName, e))
 					}
@@ -276,6 +283,7 @@ func (run *checkRun) generate(en *Engine, p *PropSpec) []*Obligation {
 					} else if len(r.Errors) == 0 {
 						run.coverBad = append(run.coverBad, en.curFunc+"["+en.cfgName+"]/cover (no returning path)")
 					}
+				  }
 				}
 			}
 		}
